@@ -2,6 +2,8 @@ package main
 
 import (
 	"fmt"
+	"go/constant"
+	"os"
 	"go/types"
 	"sort"
 	"strings"
@@ -31,6 +33,29 @@ func (e *Enc) freshResults(prefix string, sig *types.Signature, st *State, reach
 }
 
 func (e *Enc) call(fr *Frame, v *ssa.Call, cc *ssa.CallCommon, st *State, reach Term, pos string) {
+	e.callInner(fr, v, cc, st, reach, pos)
+	// a pointer to a struct-valued field (or to an element of such a value) handed to the callee: the callee may
+	// write through it, and the model keeps that memory by value in the enclosing object, so it is havocked here
+	if _, isBuiltin := cc.Value.(*ssa.Builtin); isBuiltin {
+		return
+	}
+	for _, a := range cc.Args {
+		ad, ok := fr.addrs[a]
+		if !ok {
+			continue
+		}
+		if ad.kind != AField && ad.kind != ASub {
+			continue
+		}
+		if _, isStruct := e.structs[ad.sort]; !isStruct {
+			continue
+		}
+		e.storeTo(st, ad, e.freshTyped("escaped", ad.typ, reach, st))
+		e.noteAssume("interior pointer to a struct-valued field passed to a call in " + fr.fn.Name() + ": field contents havocked after the call")
+	}
+}
+
+func (e *Enc) callInner(fr *Frame, v *ssa.Call, cc *ssa.CallCommon, st *State, reach Term, pos string) {
 	sig := cc.Signature()
 	var res ssa.Value
 	if v != nil {
@@ -68,6 +93,16 @@ func (e *Enc) call(fr *Frame, v *ssa.Call, cc *ssa.CallCommon, st *State, reach 
 
 	callee := cc.StaticCallee()
 	if callee == nil {
+		// call through an entry of a package-level table of functions: the contract "<table>_entry" (what every
+		// registered function guarantees) stands for the disjunction of the handlers
+		if g := tableGlobal(cc.Value); g != nil {
+			key := g.String() + "_entry"
+			if c := e.w.CS.Funcs[key]; c != nil {
+				rs := e.applyContract(fr, c, key, args, argTypes, sig, st, reach, pos)
+				e.setResults(fr, res, sig, rs)
+				return
+			}
+		}
 		// closure created in this function?
 		if mc, ok := cc.Value.(*ssa.MakeClosure); ok {
 			fn := mc.Fn.(*ssa.Function)
@@ -569,6 +604,10 @@ func (e *Enc) loopHeader(fr *Frame, h *ssa.BasicBlock, li *loopInfo, st *State, 
 		}
 	}
 	lc.entrySt = st.clone()
+	if fr.isTop {
+		e.loopStart = len(e.lines)
+		fr.loopLineStart[h] = len(e.lines)
+	}
 }
 
 // loopEnv: variables visible to an invariant at header h.  edgeFrom != nil evaluates header phis at the back edge.
@@ -667,6 +706,7 @@ func (e *Enc) backEdge(fr *Frame, from, h *ssa.BasicBlock, cond Term, st *State)
 		}
 		e.oblige(fmt.Sprintf("%s:loop%d:%s:preserved%s", prefix, lc.info.ordinal, inv.Label, sfx), "invariant", cond, g, e.pos(fr, loopPos(h)))
 	}
+	e.stepObligations(fr, h, cond, st, "back"+sfx)
 	if lc.spec.Decreases != nil && lc.variant0.S != "" {
 		t, err := env.eval(lc.spec.Decreases)
 		if err == nil {
@@ -896,9 +936,13 @@ func (e *Enc) loopWrites(fr *Frame, li *loopInfo) (map[string]bool, bool) {
 	all := false
 	var scanFn func(fn *ssa.Function, blocks map[*ssa.BasicBlock]bool, depth int, seen map[*ssa.Function]bool)
 	scanFn = func(fn *ssa.Function, blocks map[*ssa.BasicBlock]bool, depth int, seen map[*ssa.Function]bool) {
+		live := liveBlocks(fn)
 		for _, b := range fn.Blocks {
 			if blocks != nil && !blocks[b] {
 				continue
+			}
+			if !live[b] {
+				continue // statically dead (guarded by a constant condition such as `if debugging`)
 			}
 			for _, ins := range b.Instrs {
 				switch x := ins.(type) {
@@ -974,11 +1018,16 @@ func (e *Enc) loopWrites(fr *Frame, li *loopInfo) (map[string]bool, bool) {
 						if !c.Pure {
 							keys[e.allocKey()] = true
 						}
+					case callee != nil && seen[callee] && callee.Blocks != nil:
+						// already accounted for
 					case callee != nil && callee.Blocks != nil && depth < e.maxInline && !seen[callee] &&
 						(strings.HasPrefix(pkgPathOf(callee), repoModule) || (c != nil && c.Inline)):
 						seen[callee] = true
 						scanFn(callee, nil, depth+1, seen)
 					default:
+						if os.Getenv("GVC_DEBUG_HAVOC") != "" {
+							fmt.Fprintf(os.Stderr, "loop havoc-all caused by call %s in %s\n", cc.String(), fn.Name())
+						}
 						if mc, ok := cc.Value.(*ssa.MakeClosure); ok && depth < e.maxInline {
 							f := mc.Fn.(*ssa.Function)
 							if !seen[f] {
@@ -1012,6 +1061,10 @@ func (e *Enc) storeKeys(addr ssa.Value, keys map[string]bool) {
 	switch a := addr.(type) {
 	case *ssa.FieldAddr:
 		pt := a.X.Type().Underlying().(*types.Pointer).Elem()
+		if e.isElemPtrType(pt) {
+			keys[e.memKey(e.sortOf(pt))] = true
+			return
+		}
 		// nested struct values: the outermost heap-resident field is what changes
 		if inner, ok := a.X.(*ssa.FieldAddr); ok {
 			e.storeKeys(inner, keys)
@@ -1081,4 +1134,86 @@ func (e *Enc) onceDo(fr *Frame, mc *ssa.MakeClosure, once Term, st *State, reach
 	e.heapSet(cp, key, store(e.heapGet(cp, key), once, tTrue))
 	m := e.mergeStates([]Term{not(done), done}, []*State{cp, st})
 	st.heaps, st.base = m.heaps, m.base
+}
+
+// stepObligations: the loop's step clauses on an edge that ends an iteration (guard = edge condition, st = state there).
+func (e *Enc) stepObligations(fr *Frame, h *ssa.BasicBlock, guard Term, st *State, tag string) {
+	lc := fr.hdrEnv[h]
+	if lc == nil || lc.spec == nil || len(lc.spec.Steps) == 0 {
+		return
+	}
+	prefix := e.topName()
+	if fr.path != "" {
+		prefix += "@" + fr.path
+	}
+	env := e.loopEnv(fr, h, st, nil)
+	env.iter = lc.entrySt
+	for _, sc := range lc.spec.Steps {
+		g, err := env.evalBool(sc.E)
+		if err != nil {
+			e.problem("%s loop %d step %s: %v", fr.fn.Name(), lc.info.ordinal, sc.Label, err)
+			continue
+		}
+		name := fmt.Sprintf("%s:loop%d:step:%s:%s", prefix, lc.info.ordinal, sc.Label, tag)
+		if strings.HasPrefix(tag, "exit") || strings.HasPrefix(tag, "return") {
+			ck := fmt.Sprintf("step:%s:%d:%s:%s", prefix, lc.info.ordinal, sc.Label, strings.SplitN(tag, "-", 2)[0])
+			e.counters[ck]++
+			name = fmt.Sprintf("%s:loop%d:step:%s:%s#%d", prefix, lc.info.ordinal, sc.Label, strings.SplitN(tag, "-", 2)[0], e.counters[ck])
+		}
+		e.oblige(name, "invariant", guard, g, e.pos(fr, loopPos(h)))
+	}
+}
+
+func tableGlobal(v ssa.Value) *ssa.Global {
+	u, ok := v.(*ssa.UnOp)
+	if !ok {
+		return nil
+	}
+	ia, ok := u.X.(*ssa.IndexAddr)
+	if !ok {
+		return nil
+	}
+	switch x := ia.X.(type) {
+	case *ssa.Global:
+		return x
+	case *ssa.UnOp:
+		if g, ok := x.X.(*ssa.Global); ok {
+			return g
+		}
+	}
+	return nil
+}
+
+// liveBlocks: blocks reachable from the entry when branches on constant conditions are resolved.
+func liveBlocks(fn *ssa.Function) map[*ssa.BasicBlock]bool {
+	live := map[*ssa.BasicBlock]bool{}
+	if len(fn.Blocks) == 0 {
+		return live
+	}
+	stack := []*ssa.BasicBlock{fn.Blocks[0]}
+	if fn.Recover != nil {
+		stack = append(stack, fn.Recover)
+	}
+	for len(stack) > 0 {
+		b := stack[len(stack)-1]
+		stack = stack[:len(stack)-1]
+		if live[b] {
+			continue
+		}
+		live[b] = true
+		succs := b.Succs
+		if len(b.Instrs) > 0 {
+			if iff, ok := b.Instrs[len(b.Instrs)-1].(*ssa.If); ok {
+				if c, ok := iff.Cond.(*ssa.Const); ok && c.Value != nil {
+					if constant.BoolVal(c.Value) {
+						succs = b.Succs[:1]
+					} else {
+						succs = b.Succs[1:]
+					}
+				}
+			}
+		}
+		stack = append(stack, succs...)
+	}
+	return live
 }
